@@ -6,6 +6,8 @@ mod prim;
 mod pipeline;
 mod c04;
 mod c05;
+mod c08;
+mod c08_blocks;
 mod c11;
 mod corpus;
 
@@ -31,6 +33,7 @@ fn main() {
     let code = common::with_big_stack(move || match cmd.as_str() {
         | "c04" => c04::run(&opts),
         | "c05" => c05::run(&opts),
+        | "c08" => c08::run(&opts),
         | "c11" => c11::run(&opts),
         | other => {
             eprintln!("unknown property {other}");
